@@ -22,8 +22,15 @@ CONSTANTS MaxBackups,    \* configured maximum number of backups (0 upward)
           StartRule,     \* "fixed": shift loop starts at min(max-1, nb)
                          \* "orig" : min(max-1, nb-1) in unsigned arithmetic
           ProcRestarts,  \* number of clean process restarts explored
-          InitRule       \* "probe": a new RestartManager counts the restart files already in the folder
+          InitRule,      \* "probe": a new RestartManager counts the restart files already in the folder
                          \* "fresh": its counters start from zero (the code before fix 3c; violates CrashSafe)
+          CrashRestarts, \* number of recoveries explored: after a crash a NEW process is started in the same folder
+                         \* (what a crash-safe rotation is for) and goes on taking dumps
+          ShiftRule      \* "whenCurrent": the backups are shifted only when there is a restart.dump to move into
+                         \*                slot 0 (the code since the fix of the recovery finding)
+                         \* "always"     : they are shifted whenever backups are configured (before: a folder with
+                         \*                backups but no restart.dump - crash between the move and the open - gets
+                         \*                a hole at slot 0 and the NEXT dump aborts)
 
 VARIABLES fs,        \* directory: name -> [ver, complete] (ver = 0: absent)
           nb, nr,    \* _number_of_backups, _number_of_restarts
@@ -33,16 +40,17 @@ VARIABLES fs,        \* directory: name -> [ver, complete] (ver = 0: absent)
           ndone,     \* dumps completed since the directory was empty
           prevGood,  \* version held completely by restart.dump when the
                      \* current dump began (0: none)
-          nproc      \* process restarts so far
+          nproc,     \* process restarts so far
+          ncrash     \* recoveries from a crash so far
 
-vars == <<fs, nb, nr, pc, i, ver, ndone, prevGood, nproc>>
+vars == <<fs, nb, nr, pc, i, ver, ndone, prevGood, nproc, ncrash>>
 
 INSTANCE RotationProps
 
 ----------------------------------------------------------------------------
 Init == /\ fs = [n \in Names |-> Absent]
         /\ nb = 0 /\ nr = 0 /\ pc = "idle" /\ i = 0
-        /\ ver = 0 /\ ndone = 0 /\ prevGood = 0 /\ nproc = 0
+        /\ ver = 0 /\ ndone = 0 /\ prevGood = 0 /\ nproc = 0 /\ ncrash = 0
 
 StartIndex ==
     IF StartRule = "fixed" THEN Min(MaxBackups - 1, nb)
@@ -50,12 +58,12 @@ StartIndex ==
     ELSE Min(MaxBackups - 1, nb - 1)
 
 Begin ==
-    /\ pc = "idle" /\ ver < NDumps
+    /\ pc \in {"idle", "recovered"} /\ ver < NDumps
     /\ ver' = ver + 1
     /\ prevGood' = IF fs[-1].complete THEN fs[-1].ver ELSE 0
-    /\ IF MaxBackups > 0 THEN pc' = "shift" /\ i' = StartIndex
+    /\ IF MaxBackups > 0 /\ (ShiftRule = "always" \/ nr > 0) THEN pc' = "shift" /\ i' = StartIndex
                          ELSE pc' = "open" /\ i' = 0
-    /\ UNCHANGED <<fs, nb, nr, ndone, nproc>>
+    /\ UNCHANGED <<fs, nb, nr, ndone, nproc, ncrash>>
 
 \* std::rename(src, dst): fails (and the code aborts) when src does not exist
 Rename(src, dst) ==
@@ -67,12 +75,12 @@ ShiftOne ==
     /\ pc = "shift" /\ i > 0
     /\ Rename(i - 1, i)
     /\ IF fs[i - 1] = Absent THEN UNCHANGED i ELSE i' = i - 1 /\ pc' = "shift"
-    /\ UNCHANGED <<nb, nr, ver, ndone, prevGood, nproc>>
+    /\ UNCHANGED <<nb, nr, ver, ndone, prevGood, nproc, ncrash>>
 
 ShiftDone ==
     /\ pc = "shift" /\ i <= 0
     /\ pc' = IF nr > 0 THEN "move" ELSE "open"
-    /\ UNCHANGED <<fs, nb, nr, i, ver, ndone, prevGood, nproc>>
+    /\ UNCHANGED <<fs, nb, nr, i, ver, ndone, prevGood, nproc, ncrash>>
 
 MoveCurrent ==
     /\ pc = "move"
@@ -80,7 +88,7 @@ MoveCurrent ==
     /\ IF fs[-1] = Absent THEN UNCHANGED nb
        ELSE /\ pc' = "open"
             /\ nb' = IF nb < MaxBackups THEN nb + 1 ELSE nb
-    /\ UNCHANGED <<nr, i, ver, ndone, prevGood, nproc>>
+    /\ UNCHANGED <<nr, i, ver, ndone, prevGood, nproc, ncrash>>
 
 \* the RestartWriter constructor truncates restart.dump
 OpenTrunc ==
@@ -88,24 +96,24 @@ OpenTrunc ==
     /\ nr' = nr + 1
     /\ fs' = [fs EXCEPT ![-1] = File(ver, FALSE)]
     /\ pc' = "write" /\ i' = 0
-    /\ UNCHANGED <<nb, ver, ndone, prevGood, nproc>>
+    /\ UNCHANGED <<nb, ver, ndone, prevGood, nproc, ncrash>>
 
 WritePart ==
     /\ pc = "write" /\ i < NParts
     /\ i' = i + 1
-    /\ UNCHANGED <<fs, nb, nr, pc, ver, ndone, prevGood, nproc>>
+    /\ UNCHANGED <<fs, nb, nr, pc, ver, ndone, prevGood, nproc, ncrash>>
 
 Close ==
     /\ pc = "write" /\ i = NParts
     /\ fs' = [fs EXCEPT ![-1] = File(ver, TRUE)]
     /\ pc' = "idle" /\ ndone' = ndone + 1
-    /\ UNCHANGED <<nb, nr, i, ver, prevGood, nproc>>
+    /\ UNCHANGED <<nb, nr, i, ver, prevGood, nproc, ncrash>>
 
 \* the process dies between two operations of a dump
 Crash ==
     /\ pc \in {"shift", "move", "open", "write"}
     /\ pc' = "crashed"
-    /\ UNCHANGED <<fs, nb, nr, i, ver, ndone, prevGood, nproc>>
+    /\ UNCHANGED <<fs, nb, nr, i, ver, ndone, prevGood, nproc, ncrash>>
 
 \* clean stop and restart of the run: fresh counters, same directory
 ProcRestart ==
@@ -115,9 +123,20 @@ ProcRestart ==
             /\ nb' = Cardinality({k \in 0 .. MaxBackups - 1 : \A j \in 0 .. k : fs[j] # Absent})
        ELSE nb' = 0 /\ nr' = 0
     /\ nproc' = nproc + 1
-    /\ UNCHANGED <<fs, pc, i, ver, ndone, prevGood>>
+    /\ UNCHANGED <<fs, pc, i, ver, ndone, prevGood, ncrash>>
 
-Next == Begin \/ ShiftOne \/ ShiftDone \/ MoveCurrent \/ OpenTrunc \/ WritePart
+Probe == IF InitRule = "probe" /\ MaxBackups > 0
+         THEN /\ nr' = IF fs[-1] # Absent THEN 1 ELSE 0
+              /\ nb' = Cardinality({k \in 0 .. MaxBackups - 1 : \A j \in 0 .. k : fs[j] # Absent})
+         ELSE nb' = 0 /\ nr' = 0
+\* recovery: the process died inside a dump; a new process is started in the same folder
+CrashRestart ==
+    /\ pc = "crashed" /\ ncrash < CrashRestarts
+    /\ Probe
+    /\ pc' = "recovered" /\ ncrash' = ncrash + 1
+    /\ UNCHANGED <<fs, i, ver, ndone, prevGood, nproc>>
+
+Next == CrashRestart \/ Begin \/ ShiftOne \/ ShiftDone \/ MoveCurrent \/ OpenTrunc \/ WritePart
         \/ Close \/ Crash \/ ProcRestart
 
 Spec == Init /\ [][Next]_vars
@@ -126,12 +145,14 @@ Spec == Init /\ [][Next]_vars
 \* Layer-A properties as invariants of Layer B
 
 NeverAborts == pc # "aborted"
-AfterDump == (pc = "idle" /\ ndone > 0) => AfterDumpOK(fs, ver, ndone)
+AfterDump == (pc = "idle" /\ ndone > 0) =>
+               IF ncrash = 0 THEN AfterDumpOK(fs, ver, ndone)
+               ELSE AfterRecoveredDumpOK(fs, ver)
 CrashSafe == (pc = "crashed") => CrashSafeOK(fs, prevGood)
 \* a little more than the property asks for: backups are never incomplete
 BackupsComplete == \A j \in 0 .. MaxBackups : fs[j] # Absent => fs[j].complete
 CountersOK == /\ nb <= MaxBackups
-              /\ (pc = "idle" /\ nproc = 0) => nb = Min(MaxBackups, IF nr = 0 THEN 0 ELSE nr - 1)
+              /\ (pc = "idle" /\ nproc = 0 /\ ncrash = 0) => nb = Min(MaxBackups, IF nr = 0 THEN 0 ELSE nr - 1)
               \* the counter never claims a backup that is not there
               /\ pc = "idle" => \A j \in 0 .. nb - 1 : fs[j] # Absent
 =============================================================================
